@@ -70,9 +70,9 @@ type rsStream struct {
 type rsCase struct {
 	Method  string     `json:"method"`
 	Max     int        `json:"max"`
-	Script  []rsStream `json:"script"`           // stream i of the script answers the i-th open; later opens fail (Unavailable)
-	Cancel  string     `json:"cancel"`           // never | before-recv | after-msg | backoff
-	At      int        `json:"at,omitempty"`     // after-msg: after the At-th delivered message; backoff: 1ms after the At-th fruitless reopen attempt
+	Script  []rsStream `json:"script"`            // stream i of the script answers the i-th open; later opens fail (Unavailable)
+	Cancel  string     `json:"cancel"`            // never | before-recv | after-msg | backoff
+	At      int        `json:"at,omitempty"`      // after-msg: after the At-th delivered message; backoff: 1ms after the At-th fruitless reopen attempt
 	Flavour string     `json:"flavour,omitempty"` // what a stream reports once its context is cancelled: status (as grpc does) | ctx (bare context.Canceled)
 }
 
@@ -849,7 +849,9 @@ func retrySmokeOne(t *testing.T, c *vcore.Ctx, sc *rsSmokeCase) {
 	if c.WantSample() && (sc.CancelAfter > 0 || len(sc.Script) == 3) {
 		c.Sample(map[string]any{"smoke_case": sc, "observed": obs})
 	}
-	viol := func(sig, msg string) { c.Violate("C36/"+sig, "bufconn smoke: "+msg+" | case="+vcore.JSON(sc)+" "+obs, sc) }
+	viol := func(sig, msg string) {
+		c.Violate("C36/"+sig, "bufconn smoke: "+msg+" | case="+vcore.JSON(sc)+" "+obs, sc)
+	}
 	if strings.Join(delivered, ",") != strings.Join(mr.delivered, ",") || probe.invocations != len(mr.opens)+mr.afterCancel || probe.afterCancel != mr.afterCancel {
 		c.HarnessError("C36 smoke: the real transport and the scripted seam disagree: %s %s", vcore.JSON(sc), obs)
 	}
